@@ -60,6 +60,7 @@ theorem next_dropped_closed (s : St) (h : s.stage.isOpen = false) :
 @[simp] theorem next_waitRet (s : St) (w : Nat) (b : Bool) : next s (.waitRet w b) = .ok s := rfl
 @[simp] theorem next_snap (s : St) (sn : Snap) : next s (.snap sn) = .ok s := rfl
 @[simp] theorem next_isLocal (s : St) : next s .isLocal = .ok s := rfl
+@[simp] theorem next_monFan (s : St) (r t : List Nat) (e : SupEv) : next s (.monFan r t e) = .ok s := rfl
 @[simp] theorem next_instant (s : St) : next s .instant = .ok s := rfl
 @[simp] theorem next_treeKill (s : St) : next s .treeKill = .ok { s with killed := true } := rfl
 @[simp] theorem next_stopRet (s : St) (b : Bool) (r : Reason) (ok : Bool) :
@@ -79,7 +80,7 @@ theorem cleanup_acc (a : Actor) (e : Option SupEv) (s : St) :
   unfold cleanup
   split
   · simp
-  · cases e <;> cases hs : a.sup <;> simp [Actor.setStatus, hs, accepts_cons]
+  · cases e <;> cases hs : a.sup <;> cases hm : a.mons <;> simp [Actor.setStatus, hs, hm, notifyOuts, accepts_cons]
 
 theorem finish_sim (a : Actor) (e : SupEv) (s : St) : Sim next Inv s (finish a e) := by
   refine ⟨{ s with stage := .dead }, ?_, ?_⟩
@@ -374,7 +375,7 @@ theorem afterExit_sim (a : Actor) (s : St) (cb : Cb) (r : Res)
     subst this
     refine Sim.andThen next (R1 := fun a1 s1 => s1 = s ∧ Aux a1 s1) ?_ ?_
     · refine ⟨s, ?_, rfl, hx.congr (by rfl) (by rfl) (by rfl)⟩
-      cases hsup : a.sup <;> simp [Actor.setStatus, accepts_cons, hsup]
+      cases hsup : a.sup <;> cases hm : a.mons <;> simp [Actor.setStatus, accepts_cons, hsup, hm, notifyOuts]
     · rintro a1 s1 ⟨rfl, hx1⟩
       exact listen_sim a1 s1 (by simp [hst, exitStage]) hx1
   · rename_i hph
@@ -713,6 +714,9 @@ theorem envOp_sim (a : Actor) (s : St) (op : AOp) (h : Inv a s) : Sim next Inv s
     · exact ⟨s, by simp, h.congr (by rfl) (by rfl) (by rfl) (by rfl)⟩
     · exact ⟨s, rfl, h⟩
   | kidAdd c => exact ⟨s, rfl, h.congr (by rfl) (by rfl) (by rfl) (by rfl)⟩
+  | monAdd m => exact ⟨s, rfl, h.congr (by rfl) (by rfl) (by rfl) (by rfl)⟩
+  | monDel m => exact ⟨s, rfl, h.congr (by rfl) (by rfl) (by rfl) (by rfl)⟩
+  | monDrop m => exact ⟨s, by simp [Actor.envOp], h.congr (by rfl) (by rfl) (by rfl) (by rfl)⟩
   | kidDel c => exact ⟨s, rfl, h.congr (by rfl) (by rfl) (by rfl) (by rfl)⟩
   | call k =>
     refine ⟨s, by simp [Actor.envOp, accepts_cons], ?_⟩
